@@ -13,14 +13,29 @@
      ast.Name(id=..), ast.Tuple(elts=[..]), ast.Constant(value=...), ast.Subscript(value=.., slice=..): constructors of the
                                      annotation tree `past`; ast.Index(value=x) is x (Python >= 3.9);
                                      ast.fix_missing_locations / ast.copy_location only set positions: identity on `past`
-     set(), s.add(x), len(s), s.pop() on a set of str: a duplicate-free list (pop of a one-element set returns that element)
+     set(), s.add(x), len(s) on a set of str: a duplicate-free list.  Taking "the" element out of a set -- s.pop(),
+                                     next(iter(s)), `x, = s`, list(s) / tuple(s) -- is given a meaning only for a ONE-element
+                                     set (the order of a larger set is unspecified: the interpreter answers RError there, so
+                                     code that depends on it does not prove)
      cls.mro(True, False)            a list whose entries are Class objects or str (unresolved base names): `mroent`
      x in <tuple of str>             membership by ==; a Class object equals no str
      self.builder.current.contents.get(target)   the documentable registered under that name in the class being walked: a
                                      Function (its kind is the one piece of state the code mutates), another object, or None
      expr.func, expr.args, x.id, isinstance(x, ast.Call/ast.Name) on the assigned expression: the tree `pexpr`
      calls between the translated functions (_annotation_for_value <-> _annotation_for_elements) are parameters of the
-     interpreter, instantiated in the theorems with the model functions: each callee has its own obligation. *)
+     interpreter, instantiated in the theorems with the model functions: each callee has its own obligation.
+
+   Constructs with a stated meaning beyond the obvious ones:
+     EIfExp c a b                    `a if c else b`: only the chosen branch is evaluated
+     ELt a b / ELe a b               < and <= on int (> and >= are emitted with the operands swapped)
+     EToList e                       list(e) / tuple(e) of a list, or of a one-element set
+     SCall x body                    x = helper(...): a call of a same-module function / same-class method that is not one of
+                                     the primitives above is INLINED by the translator: the callee's parameters and locals
+                                     are numbered apart from the caller's, the parameters are assigned from the (pure)
+                                     argument expressions just before, and `body` is the callee's body.  SCall runs it; the
+                                     value it returns (None when it falls off the end) is bound to x; the callee's locals
+                                     are dropped; an assertion failure / error propagates; the kind of the Function object
+                                     (the one piece of mutable state) is threaded through. *)
 From Coq Require Import ZArith NArith List Bool.
 From PydoctorVerif Require Import Base.Sexp Model.MiniPy Model.Infer Model.Builder.
 Import ListNotations.
@@ -66,7 +81,10 @@ Inductive iexpr : Type :=
 | EMkName (e : iexpr) | EMkTuple (l : list iexpr) | EMkSubscript (v s : iexpr) | EMkEllipsis
 | EAttrId (e : iexpr) | EAttrFunc (e : iexpr) | EAttrArgs (e : iexpr) | EAttrKind (e : iexpr)
 | ELen (e : iexpr) | EIndex (e : iexpr) (i : Z) | EUnpack1 (e : iexpr)      (* x, = e *)
-| ESetEmpty | ESetAdd (s x : iexpr) | ESetPop (s : iexpr)
+| ESetEmpty | ESetAdd (s x : iexpr) | ESetPop (s : iexpr)                   (* s.pop() / next(iter(s)) *)
+| EToList (e : iexpr)                             (* list(e) / tuple(e) *)
+| EIfExp (c a b : iexpr)                          (* a if c else b *)
+| ELt (a b : iexpr) | ELe (a b : iexpr)
 | EMro (e : iexpr)                                (* e.mro(True, False) *)
 | EContentsGet (e : iexpr)                        (* self.builder.current.contents.get(e) *)
 | EDictLit (l : list (text * iexpr)) | EDictGet (d k : iexpr)
@@ -81,8 +99,9 @@ Inductive istmt : Type :=
 | SReturn (e : iexpr)
 | SAssert (e : iexpr)
 | SSetKind (e v : iexpr)                          (* <e>.kind = v *)
-| STryLit (x : var) (e : iexpr) (handler orelse : istmt).
+| STryLit (x : var) (e : iexpr) (handler orelse : istmt)
       (* try: x = ast.literal_eval(e)  except (ValueError, TypeError): handler  else: orelse *)
+| SCall (x : var) (body : istmt).                 (* x = <inlined helper>(...), see the header *)
 
 Definition env := var -> option ival.
 Definition env0 : env := fun _ => None.
@@ -255,10 +274,20 @@ Section Interp.
           | Some (VList l) => if Z.ltb i 0 then None else nth_error l (Z.to_nat i)
           | _ => None
           end
-      | EUnpack1 a => match eval en a with Some (VList [v]) => Some v | _ => None end
+      | EUnpack1 a => match eval en a with Some (VList [v]) => Some v | Some (VSet [t]) => Some (VStr t) | _ => None end
       | ESetEmpty => Some (VSet [])
       | ESetAdd s x => match eval en s, eval en x with Some (VSet l), Some (VStr t) => Some (VSet (set_add l t)) | _, _ => None end
-      | ESetPop s => match eval en s with Some (VSet (t :: _)) => Some (VStr t) | _ => None end
+      | ESetPop s => match eval en s with Some (VSet [t]) => Some (VStr t) | _ => None end
+      | EToList a =>
+          match eval en a with
+          | Some (VList l) => Some (VList l)
+          | Some (VSet []) => Some (VList [])
+          | Some (VSet [t]) => Some (VList [VStr t])
+          | _ => None
+          end
+      | EIfExp c a b => match eval en c with Some v => if truthy v then eval en a else eval en b | None => None end
+      | ELt a b => match eval en a, eval en b with Some (VInt x), Some (VInt y) => Some (VBool (Z.ltb x y)) | _, _ => None end
+      | ELe a b => match eval en a, eval en b with Some (VInt x), Some (VInt y) => Some (VBool (Z.leb x y)) | _, _ => None end
       | EMro _ => Some (VList (map VMro mro_of))
       | EContentsGet a => match eval en a with Some (VStr t) => Some (contents_get t) | _ => None end
       | EDictLit l =>
@@ -332,6 +361,12 @@ Section Interp.
             | None => exec handler en hk
             end
         | _ => RError
+        end
+    | SCall x body =>
+        match exec body en hk with
+        | RNormal _ hk' => RNormal (setv en x VNone) hk'
+        | RReturn v hk' => RNormal (setv en x v) hk'
+        | r => r
         end
     end.
 
